@@ -25,12 +25,12 @@ struct RunCtx{
   Switches sw;
   std::vector<CallRec> log;
   const double* cur_input; double cur_t; bool in_proxy;
-  long rhs_evals,napply,rejections_fired,failures_fired; int reject_budget,fail_budget;
+  long rhs_evals,napply,rejections_fired,failures_fired; int reject_budget,fail_budget; long hard_fail_at;   // >0: the n-th apply returns a hard error; -1 after it fired
   long distinct_inputs; const double* seen_inputs[8]; int nseen;
   std::string opkind; int opi; std::string prop_default;
   bool moved_in_run;
   RunCtx():out(0),tr(0),ctr(0),prob(0),live(0),cur_input(0),cur_t(0),in_proxy(false),rhs_evals(0),napply(0),rejections_fired(0),failures_fired(0),
-           reject_budget(0),fail_budget(0),distinct_inputs(0),nseen(0),opi(-1),moved_in_run(false){}
+           reject_budget(0),fail_budget(0),hard_fail_at(0),distinct_inputs(0),nseen(0),opi(-1),moved_in_run(false){}
   void violation(const std::string& prop,const std::string& cls,const std::string& sig,const std::string& detail){
     if(!out->ok) return;
     out->fail(cls,sig,"op#"+std::to_string(opi)+" "+opkind+": "+detail); out->prop=prop;
